@@ -492,7 +492,7 @@ fn ls_set<S: IndexedFull>(repo: &Repository<S>, node: &Node, opts: &LsOptions) -
 
 /// Every way of reading the snapshot below `root` back, compared with `exps`; Ok = the observation items.
 #[allow(clippy::too_many_lines)]
-fn verify<S: IndexedFull>(repo: &Repository<S>, root: &Node, exps: &[Exp], opts: &Opts, seed: u64, tmp: &Path) -> Result<Vec<String>, String> {
+fn verify<S: IndexedFull>(repo: &Repository<S>, snap: &SnapshotFile, prefix: &Path, root: &Node, exps: &[Exp], opts: &Opts, seed: u64, tmp: &Path) -> Result<Vec<String>, String> {
     // --- ls: names, types, link targets, permission bits, mtimes
     let ls: Vec<(PathBuf, Node)> = repo.ls(root, &LsOptions::default()).and_then(|it| it.collect()).map_err(|e| format!("oracle-fail:ls-{}", errkind(&e)))?;
     let by_path: BTreeMap<Vec<u8>, &Node> = ls.iter().map(|(p, n)| (p.as_os_str().as_bytes().to_vec(), n)).collect();
@@ -594,6 +594,112 @@ fn verify<S: IndexedFull>(repo: &Repository<S>, root: &Node, exps: &[Exp], opts:
                 }
             }
         }
+    }
+    // --- every entry BY PATH: `Tree::node_from_path` through `Repository::node_from_path`, `Vfs`, `snapshot:path`
+    // (`node_from_snapshot_path`, `node_from_snapshot_and_path`; strings, so only for UTF-8 paths) and `find_nodes_from_path` has to
+    // give the node the listing gave; dump / ranged reads / listing / restore THROUGH the node found by path equal the source
+    let Some(root_tree) = root.subtree else { return Err("oracle-fail:by-path-root-without-subtree".into()) };
+    let vfs = rustic_core::vfs::Vfs::from_dir_node(root);
+    let snap_hex = snap.id.to_hex().to_string();
+    let mut by_path_nodes: BTreeMap<Vec<u8>, Node> = BTreeMap::new();
+    for e in exps {
+        let listed = by_path[&e.rel];
+        let rel = PathBuf::from(os(&e.rel));
+        let hp = hex(&e.rel);
+        let same = |how: &str, got: RusticResult<Node>| -> Result<Node, String> {
+            match got {
+                Err(err) => Err(format!("oracle-fail:by-path-{}:{how}:{hp}", errkind(&err))),
+                Ok(n) if &n != listed => Err(format!("oracle-fail:by-path-other-node:{how}:{hp}")),
+                Ok(n) => Ok(n),
+            }
+        };
+        let n1 = same("node_from_path", repo.node_from_path(root_tree, &rel))?;
+        _ = same("vfs-node_from_path", vfs.node_from_path(repo, &rel))?;
+        let full = prefix.join(&rel);
+        // (the snapshot tree of `backup` of an absolute path has no root component)
+        if let Some(s) = full.to_str() {
+            _ = same("node_from_snapshot_path", repo.node_from_snapshot_path(&format!("{snap_hex}:{s}"), |_| true))?;
+            _ = same("node_from_snapshot_and_path", repo.node_from_snapshot_and_path(snap, s))?;
+        }
+        match repo.find_nodes_from_path(vec![root_tree], &rel) {
+            Err(err) => return Err(format!("oracle-fail:by-path-{}:find_nodes_from_path:{hp}", errkind(&err))),
+            Ok(f) => {
+                if f.matches.len() != 1 || f.matches[0].and_then(|i| f.nodes.get(i)) != Some(listed) {
+                    return Err(format!("oracle-fail:by-path-other-node:find_nodes_from_path:{hp}"));
+                }
+            }
+        }
+        match &e.kind {
+            SrcKind::File(c) => {
+                let mut buf = Vec::new();
+                repo.dump(&n1, &mut buf).map_err(|err| format!("oracle-fail:by-path-dump-{}:{hp}", errkind(&err)))?;
+                if &buf != c {
+                    return Err(format!("oracle-fail:by-path-dump-content:{hp}"));
+                }
+                let of = repo.open_file(&n1).map_err(|err| format!("oracle-fail:by-path-open-{}:{hp}", errkind(&err)))?;
+                let len = c.len();
+                let bounds = bounds_of.get(&e.rel).cloned().unwrap_or_default();
+                for (off, l) in read_ranges(&mut rng, len, &bounds, 6) {
+                    let got = repo.read_file_at(&of, off, l).map_err(|err| format!("oracle-fail:by-path-read_at-{}:{hp}", errkind(&err)))?;
+                    let want: &[u8] = if off >= len { &[] } else { &c[off..(off + l).min(len)] };
+                    if got.as_ref() != want {
+                        return Err(format!("oracle-fail:by-path-read_at-content:{hp}:{off}:{l}:{len}"));
+                    }
+                }
+            }
+            SrcKind::Dir => {
+                // sub-path ls (recursive) and the directory entries the Vfs gives (names as bytes, types)
+                let mut pre = e.rel.clone();
+                pre.push(b'/');
+                let below: BTreeMap<Vec<u8>, char> = exps.iter().filter(|x| x.rel.starts_with(&pre)).map(|x| (x.rel[pre.len()..].to_vec(), exp_char(x))).collect();
+                if ls_set(repo, &n1, &LsOptions::default())? != below {
+                    return Err(format!("oracle-fail:by-path-ls:{hp}"));
+                }
+                let ents = vfs.dir_entries_from_path(repo, &rel).map_err(|err| format!("oracle-fail:by-path-{}:vfs-dir_entries_from_path:{hp}", errkind(&err)))?;
+                let got: BTreeMap<Vec<u8>, char> = ents.iter().map(|n| (n.name().as_bytes().to_vec(), kind_char(n))).collect();
+                let want: BTreeMap<Vec<u8>, char> = exps.iter().filter(|x| parent_of(&x.rel) == Some(&e.rel)).map(|x| (last_comp(&x.rel).to_vec(), exp_char(x))).collect();
+                if got.len() != ents.len() || got != want {
+                    return Err(format!("oracle-fail:by-path-dir-entries:{hp}"));
+                }
+            }
+            SrcKind::Symlink(t) => {
+                if n1.node_type.to_link().as_os_str().as_bytes() != t.as_slice() {
+                    return Err(format!("oracle-fail:by-path-symlink-target:{hp}"));
+                }
+            }
+        }
+        _ = by_path_nodes.insert(e.rel.clone(), n1);
+    }
+    // names that are NOT in the tree are not found: the escaped form of a name that needs escaping, a name with a byte appended
+    for e in exps.iter().filter(|x| x.tag != 'R') {
+        let name = last_comp(&e.rel);
+        let esc = rustic_core::verif::node::escape(name);
+        let mut longer = name.to_vec();
+        longer.push(b'~');
+        for cand in [esc.as_bytes().to_vec(), longer] {
+            let mut p = parent_of(&e.rel).map(<[u8]>::to_vec).unwrap_or_default();
+            if !p.is_empty() {
+                p.push(b'/');
+            }
+            p.extend_from_slice(&cand);
+            if cand.is_empty() || by_path.contains_key(&p) {
+                continue;
+            }
+            if repo.node_from_path(root_tree, &PathBuf::from(os(&p))).is_ok() {
+                return Err(format!("oracle-fail:by-path-found-absent-name:{}", hex(&p)));
+            }
+        }
+    }
+    // --- sub-path restore: one directory found by path is restored on its own and compared
+    let sub_dirs: Vec<&Exp> = exps.iter().filter(|x| matches!(x.kind, SrcKind::Dir) && x.tag != 'R').collect();
+    if !sub_dirs.is_empty() {
+        let d = *rng.pick(&sub_dirs);
+        let mut pre = d.rel.clone();
+        pre.push(b'/');
+        let sub_exps: Vec<Exp> = exps.iter().filter(|x| x.rel.starts_with(&pre)).map(|x| Exp { rel: x.rel[pre.len()..].to_vec(), ..x.clone() }).collect();
+        let dest_path = tmp.join("sub");
+        restore_into(repo, &by_path_nodes[&d.rel], &dest_path, RestoreOptions::default()).map_err(|e| format!("oracle-fail:by-path-restore-{e}"))?;
+        compare_restored(&dest_path, &sub_exps, &[], "by-path-restore")?;
     }
     // --- ls variants: non-recursive listing of the root and of directories = their direct children; recursive listing of a
     // directory node = its descendants (paths relative to it)
@@ -977,7 +1083,7 @@ fn e2e(cfg: &Cfg, opts: &Opts, mut ents: Vec<PEnt>, seed: u64) -> String {
         Ok(t) => t,
         Err(_) => return "err:tempdir".into(),
     };
-    let obs = match verify(&repo, &root, &exps, opts, seed, tmp.path()) {
+    let obs = match verify(&repo, &snap, Path::new(""), &root, &exps, opts, seed, tmp.path()) {
         Ok(o) => o,
         Err(e) => return e,
     };
@@ -1127,7 +1233,7 @@ fn e2el(cfg: &Cfg, opts: &Opts, ents: Vec<PEnt>, seed: u64) -> String {
             Err(e) => return format!("oracle-fail:source-dir-not-in-snapshot-{}", errkind(&e)),
         }
     };
-    let obs = match verify(&repo, &root, &exps, opts, seed, &base) {
+    let obs = match verify(&repo, &snap, if opts.as_path { Path::new("") } else { &srcdir }, &root, &exps, opts, seed, &base) {
         Ok(o) => o,
         Err(e) => return e,
     };
